@@ -41,6 +41,9 @@ func (h history) String() string {
 func (o hop) String() string {
 	switch o.K {
 	case "login":
+		if o.T != "" {
+			return fmt.Sprintf("L(p%d,%s)", o.P, o.T)
+		}
 		return fmt.Sprintf("L(p%d)", o.P)
 	case "open":
 		return fmt.Sprintf("O(s%d,p%d)", o.S, o.P)
@@ -75,7 +78,17 @@ func opPidString(o hop) string {
 	return strconv.Itoa(pidValue(o.P))
 }
 
-func sesString(s int) string { return strconv.Itoa(500 + s) }
+// sesString maps a session number of the history alphabet to a kernel session
+// id; the ids cover the unsigned 32-bit range (only 4294967295 is reserved).
+func sesString(s int) string {
+	switch s % 5 {
+	case 3:
+		return strconv.FormatInt(2147483648+int64(s), 10)
+	case 4:
+		return strconv.FormatInt(4294967294-int64(s), 10)
+	}
+	return strconv.Itoa(500 + s)
+}
 func pidValue(p int) int     { return 2000 + p }
 
 var evBase = time.Unix(1700000000, 0).UTC()
@@ -92,8 +105,8 @@ const scrambleMod = 100003
 func scramble(i int) int { return (i*7919 + 13) % scrambleMod }
 
 var unscrambleTable = func() map[int]int {
-	m := make(map[int]int, 4096)
-	for i := 0; i < 4096; i++ {
+	m := make(map[int]int, 20000)
+	for i := 0; i < 20000; i++ {
 		m[scramble(i)] = i
 	}
 	return m
@@ -184,8 +197,14 @@ func apiEvent(i int, o hop) *aucoalesce.Event {
 // successive logins of a reused PID.
 func loginFor(opIndex int, o hop) common.RemoteUserLogin {
 	user := fmt.Sprintf("user%d_op%d", o.P, opIndex)
+	addr := fmt.Sprintf("10.0.%d.%d", o.P, opIndex)
+	if o.T == "same_account" {
+		// the same account from the same host: only the source port tells the logins apart
+		user = fmt.Sprintf("user%d", o.P)
+		addr = fmt.Sprintf("10.0.%d.1", o.P)
+	}
 	ev := auditevent.NewAuditEvent(common.ActionLoginIdentifier,
-		auditevent.EventSource{Type: "IP", Value: fmt.Sprintf("10.0.%d.%d", o.P, opIndex), Extra: map[string]any{"port": strconv.Itoa(40000 + opIndex)}},
+		auditevent.EventSource{Type: "IP", Value: addr, Extra: map[string]any{"port": strconv.Itoa(40000 + opIndex)}},
 		auditevent.OutcomeSucceeded,
 		map[string]string{"loggedAs": user, "userID": "cred-" + user, "pid": strconv.Itoa(pidValue(o.P))},
 		"sshd").WithTarget(map[string]string{"host": vhNode, "machine-id": vhMachineID})
@@ -447,11 +466,17 @@ func firstOpen(h history) map[int]int {
 }
 
 func sesNumber(s string) (int, bool) {
-	n, err := strconv.Atoi(s)
+	n, err := strconv.ParseInt(s, 10, 64)
 	if err != nil {
 		return 0, false
 	}
-	return n - 500, true
+	switch {
+	case n >= 4294967000:
+		return int(4294967294 - n), true
+	case n >= 2147483648:
+		return int(n - 2147483648), true
+	}
+	return int(n - 500), true
 }
 
 // oracleC01: every emitted UserAction carries the identity of the login whose
